@@ -397,7 +397,7 @@ fn opname(op: &Op) -> &'static str {
 pub fn run(ctx: &mut Ctx) {
     match ctx.family.as_str() {
         "int" => {
-            let (vals, max) = if ctx.tier_thorough { (vec![1, 2, 3], 7) } else { (vec![1, 2], 5) };
+            let (vals, max) = if ctx.tier_thorough { (vec![1, 2, 3], 8) } else { (vec![1, 2], 5) };
             bfs::<i32>(ctx, "i32", vals, max);
         }
         "item" => {
